@@ -886,6 +886,10 @@ class Interp(object):
             if k != "val":
                 res.append((s, k, cm))
                 continue
+            if isinstance(cm, Ref) and isinstance(s.obj(cm).cls, ClassInfo) and s.obj(cm).cls.lookup("__enter__") is not None \
+                    and s.obj(cm).cls.lookup("__exit__") is not None:
+                res.extend(self.with_object(s, node, item, cm))
+                continue
             hook = self.stubs.get("@with")
             if hook is None:
                 raise Unsupported("with-statement needs an '@with' stub at %s" % self.loc(node))
@@ -902,6 +906,57 @@ class Interp(object):
             else:
                 res.extend(hook(self, s, cm, item, node))
         return res
+
+    def with_object(self, st, node, item, cm):
+        """with <object of an in-repo class that defines __enter__ / __exit__> [as VAR]: BODY - Python's protocol:
+        __enter__(); BODY; __exit__(None, None, None) on every non-exceptional way out, __exit__(type, value, tb) on an
+        exception - which is swallowed exactly when __exit__ returns a true value."""
+        cls = st.obj(cm).cls
+        enter, exit_ = cls.lookup("__enter__"), cls.lookup("__exit__")
+        res = []
+        wkey = "@with:%d" % id(node)
+        st.frames[-1][wkey] = cm        # the statement holds the context manager (nobody else may)
+        try:
+            return self._with_object(st, node, item, cm, enter, exit_, wkey)
+        finally:
+            pass
+
+    def _with_object(self, st, node, item, cm, enter, exit_, wkey):
+        res = []
+
+        def done(outs):
+            for (s_, k_, v_) in outs:
+                if s_.frames and wkey in s_.frames[-1]:
+                    del s_.frames[-1][wkey]
+            return outs
+        for (s1, k1, v1) in self.call_function(st, enter, [], {}, node, self_val=cm):
+            if k1 != "val":
+                res.append((s1, k1, v1))
+                continue
+            starts = [(s1, "next", None)]
+            if item.optional_vars is not None:
+                starts = self.assign(s1, item.optional_vars, v1)
+            for (s2, k2, v2) in starts:
+                if k2 != "next":
+                    # the assignment failed after __enter__: Python treats it like an exception in the body
+                    body_outs = [(s2, k2, v2)]
+                else:
+                    body_outs = self.exec_block(s2, node.body)
+                for (s3, k3, v3) in body_outs:
+                    if k3 == "raise":
+                        exc = v3
+                        etype = ClassVal(exc.cls) if isinstance(exc.cls, ClassInfo) else ClassVal(exc.clsname())
+                        evalue = exc.ref if exc.ref is not None else Top("exception-value", False, truth=True)
+                        for (s4, k4, v4) in self.call_function(s3, exit_, [etype, evalue, Top("traceback", False, truth=True)], {}, node, self_val=cm):
+                            if k4 != "val":
+                                res.append((s4, k4, v4))
+                                continue
+                            for (s5, b) in self.truth(s4, v4, node):
+                                res.append((s5, "next", None) if b else (s5, "raise", exc))
+                    else:
+                        for (s4, k4, v4) in self.call_function(s3, exit_, [None, None, None], {}, node, self_val=cm):
+                            res.append((s4, k3, v3) if k4 == "val" else (s4, k4, v4))
+        return done(res)
 
     def s_For(self, st, node):
         return self.for_multi([st], node)
